@@ -356,6 +356,7 @@ struct LoggerDef
   std::vector<uint32_t> sinks; // indices into World::sinks, in attachment order
   bool removed{false};
   bool tsc{false}; // timestamps are rdtsc values converted by the backend (order family, mode F)
+  bool user_clock{false}; // timestamps come from future_clock()
 };
 
 struct World
@@ -404,6 +405,7 @@ struct World
     {
       clk = quill::ClockSourceType::User;
       uc = &future_clock();
+      d.user_clock = true;
     }
     d.lg = Fe::create_or_get_logger(d.name, std::move(v), pfo, clk, uc);
     d.lg->set_log_level(quill::LogLevel::TraceL3);
